@@ -66,3 +66,35 @@ Definition MultiBW_doc (m q2 q02 : R) (ls : list nat) (d : R) (res : list (R * R
 (* as coded BEFORE /repo fix 4a6337b: dom_fun was never called, get_ls_amp was inherited unchanged (old model, kept for the
    refutation theorem); since the fix the code is MultiBW_doc, which is what the tie compares against *)
 Definition MultiBW_code := MultiBWR.
+
+(* ====================================================================================================
+   Hunt round 2 (C15): the code AFTER the repairs of /verif/build/fix2_C15 (patches 3, 5, 8).
+   ==================================================================================================== *)
+
+(* ---------- MultiBWR after the repair (patch 3) ----------
+   Every member is a BWR normalised at ITS OWN mass: q0_k^2 = get_relative_p2(m0_k, m1, m2), so Gamma_k(m0_k) = Gamma0_k.
+   The decay's q02 (barrier factor of the coupling) is taken at the FIRST member's mass (get_mass() = all_mass()[0]); it no
+   longer comes from the unrelated `mass:` entry or from the mean mass of the first data batch.
+   [multi_doms] / [MultiBWR] above (ONE q02 for all members) describe the code BEFORE the repair and are kept for the
+   refutation theorem multibwr_sub_resonance_pole_refuted. *)
+Definition multi_doms_own (m q2 m1 m2 : R) (l : nat) (d : R) (res : list (R * R)) : list C :=
+  map (fun r => BWR2 m (fst r) (snd r) q2 (get_relative_p2 (fst r) m1 m2) l d) res.
+Definition MultiBWR_own (m q2 q02 m1 m2 : R) (ls : list nat) (d : R) (res : list (R * R)) (coeff : list (list C)) (i : nat) : C :=
+  MultiBWR_from (ls_barrier (nth i ls 0%nat) q2 q02 d) (nth i coeff []) (multi_doms_own m q2 m1 m2 (lmin ls) d res).
+(* the reference mass the decay uses for q02: first member (0 for an empty list, never happens) *)
+Definition multi_ref_mass (res : list (R * R)) : R := fst (hd (0, 0) res).
+
+(* ---------- LS-decay and the option has_barrier_factor (patch 8) ----------
+   The line shape R_i(m) of the split-LS models is evaluated by the decay; after the repair the option cannot remove it. *)
+Definition ls_decay_amp_opt (has_barrier_factor : bool) (g R : C) : C := ls_decay_amp g R.
+(* BEFORE the repair: has_barrier_factor = false returned the bare coupling g_ls_i, i.e. R_i(m) = 1 *)
+Definition ls_decay_amp_opt_old (has_barrier_factor : bool) (g R : C) : C := if has_barrier_factor then ls_decay_amp g R else g.
+
+(* ---------- Particle.__call__(m): the q^2 handed to the q^2-based models (patch 5) ----------
+   after the repair: get_relative_p2 (not clamped), as in the amplitude; before: the square of the clamped momentum *)
+Definition call_q2 (m m1 m2 : R) : R := get_relative_p2 m m1 m2.
+Definition call_q2_old (m m1 m2 : R) : R := (get_relative_p m m1 m2) ^ 2.
+
+(* ---------- symbolic denominators with the configured barrier radius (patch 1) ----------
+   formula.BWR_dom(m, m0, g0, l, m1, m2, d) = m0^2 - m^2 - i m0 Gamma(m; d) *)
+Definition BWR_dom (m m0 g0 q q0 : R) (L : nat) (d : R) : C := (m0 * m0 - m * m, - (m0 * Gamma m g0 q q0 L m0 d)).
